@@ -32,8 +32,14 @@ Norm(e) == IF e.a = "Retain" THEN [e EXCEPT !.keep = SeqSet(@)] ELSE e
 Init == mA = EmptyMap /\ mB = EmptyMap /\ drift = 0 /\ canon = TRUE /\ l = 1
 
 \* what every accepted line must satisfy in addition to the event-specific part
-AcctOK(e, m2) ==
-    /\ Has(e, "x") => Len(m2.a) = e.x[1] /\ Len(m2.f) = e.x[2] /\ m2.c = e.x[3]
+AcctOK(e, m2, d2) ==
+    \* C16: the specification's arena length is the largest number of nodes the history ever needed at one time;
+    \* the code may hold fewer slots (it may give trailing free slots back), never more
+    /\ Has(e, "x") => /\ e.x[1] <= Len(m2.a)
+                      /\ e.x[1] = Len(m2.a) => Len(m2.f) = e.x[2]
+                      \* the cached counter: the specification's (which drifts by d2 as finding F4 explains),
+                      \* or the true number of entries (the finding repaired)
+                      /\ (m2.c = e.x[3] \/ m2.c - d2 = e.x[3])
     /\ Has(e, "t") => Tree(m2) = e.t
 
 \* structural properties of the specification state after every accepted line
@@ -51,6 +57,9 @@ RetMatches(e, mine, logged, panicked) ==
     ELSE IF e.a = "Find" /\ e.kind = "find" /\ Len(e.q.n) < Len(e.p.n)
     THEN /\ Len(mine) = Len(logged)
          /\ mine # <<>> => mine[1].ok = logged[1].ok /\ mine[1].d.it = logged[1].d.it
+    ELSE IF e.a = "Len"
+    THEN \* the true number of entries is always right; the drifted one only as finding F4 explains it
+         logged = mine \/ logged = <<mine[1] - drift>>
     ELSE mine = logged
 \*  - an item stored in both operands of a set operation may carry either stored representation
 StripBoth(op, ret) ==
@@ -78,7 +87,7 @@ MapStep(e, which) ==
     IN \* a "lenient" line only advances the specification (used when the observers are judged after a call
        \* of another property's concern has already been rejected)
        /\ IF Has(e, "lenient") THEN TRUE ELSE (RetMatches(e, r.ret, e.ret, r.pan) /\ r.pan = e.pan)
-       /\ AcctOK(e, r.m)
+       /\ AcctOK(e, r.m, IF which # "A" \/ IsClear(e) THEN 0 ELSE drift + DriftDelta(m0, e))
        /\ StateOK(r.m)
        \* the abstract map agrees as well (specification self-check at full width);
        \* `canon` is not tracked in traces, hence FALSE (the weaker judgement)
@@ -129,7 +138,7 @@ ObsStep(e) ==
     /\ Ascending(e.iter)                                     \* C03: strictly ascending, hence nothing twice
     /\ e.iter = SortedPV(E)                                  \* C03 / C01: iteration and exact-match sweep agree
     /\ IF HasState(e) THEN E = StateE(e) ELSE TRUE           \* C01: the contents are what the history produced
-    /\ IF Has(e, "nolen") THEN TRUE ELSE (e.len = Cardinality(E) + drift /\ e.empty = (e.len = 0))   \* C04 (drift only via finding F4)
+    /\ IF Has(e, "nolen") THEN TRUE ELSE ((e.len = Cardinality(E) + drift \/ e.len = Cardinality(E)) /\ e.empty = (e.len = 0))   \* C04 (drift only via finding F4)
     /\ \A i \in 1..Len(e.qs) :
          LET q == e.qs[i] IN
          /\ q.get = AVal(E, q.q.n)                           \* C01
@@ -174,7 +183,7 @@ Expected(e) ==
     ELSE IF e.a = "Obs" THEN
         LET E == EntrySet(e.E) IN
         [kind |-> "obs", iter |-> SortedPV(E), ascending |-> Ascending(e.iter), hasState |-> HasState(e),
-         stateE |-> IF HasState(e) THEN SortedPV(StateE(e)) ELSE <<>>, len |-> IF Has(e, "nolen") THEN e.len ELSE Cardinality(E) + drift,
+         stateE |-> IF HasState(e) THEN SortedPV(StateE(e)) ELSE <<>>, len |-> IF Has(e, "nolen") \/ e.len = Cardinality(E) THEN e.len ELSE Cardinality(E) + drift,
          qs |-> [i \in 1..Len(e.qs) |->
                    LET q == e.qs[i] IN
                    [q |-> q.q, get |-> AVal(E, q.q.n), kv |-> AOptPV(E, q.q.n), has |-> B2S(AHas(E, q.q.n)),
@@ -194,6 +203,7 @@ Expected(e) ==
          IN [kind |-> "map", ret |-> r.ret, pan |-> r.pan, x |-> <<Len(r.m.a), Len(r.m.f), r.m.c>>,
              t |-> Tree(r.m), t0 |-> Tree(m0), wf |-> WF(r.m), partition |-> Partition(r.m),
              cn |-> (IF IsClear(e) THEN TRUE ELSE canon /\ CanonKeeps(e)), keeps |-> ShapeKeeps(e),
+             dr |-> (IF (Has(e, "m") /\ e.m = "B") \/ IsClear(e) THEN 0 ELSE drift + DriftDelta(m0, e)),
              absok |-> RetAgrees(e, r, ar, Entries(m0), FALSE, drift) /\ Entries(r.m) = ar.E]
 DiagNext == /\ l <= DiagLine
             /\ IF l = DiagLine
